@@ -45,6 +45,39 @@ def freshNames (c : Nat) : Nat → List String
   | 0 => []
   | n + 1 => argName c :: freshNames (c + 1) n
 
+/-- `N` for a name spelled `arg_N` (decimal digits only) -/
+def argIdx? (s : String) : Option Nat :=
+  if s.startsWith "arg_" then
+    let d := s.toList.drop 4
+    if d.isEmpty || !d.all Char.isDigit then Option.none
+    else some (d.foldl (fun n ch => 10 * n + (ch.toNat - '0'.toNat)) 0)
+  else Option.none
+
+mutual
+/-- every `Name` id and every lambda parameter name of an expression -/
+def namesAndParams : Expr → List String
+  | .name x => [x]
+  | .const _ => []
+  | .attr v _ => namesAndParams v
+  | .call f args _ kwv => namesAndParams f ++ namesAndParamsL args ++ namesAndParamsL kwv
+  | .lam ps b => ps ++ namesAndParams b
+  | .sub v s => namesAndParams v ++ namesAndParams s
+  | .tuple es => namesAndParamsL es
+  | .list es => namesAndParamsL es
+  | .dict ks vs => namesAndParamsL ks ++ namesAndParamsL vs
+  | .op _ args => namesAndParamsL args
+  | .comp _ e t i ifs _ => namesAndParams e ++ namesAndParams t ++ namesAndParams i ++ namesAndParamsL ifs
+def namesAndParamsL : List Expr → List String
+  | [] => []
+  | e :: es => namesAndParams e ++ namesAndParamsL es
+end
+
+/-- the first counter value whose name `arg_N`, and every later one, does not occur in the expression -/
+def nextArg (e : Expr) : Nat :=
+  (namesAndParams e).foldl (fun m s => match argIdx? s with
+    | some k => max m (k + 1)
+    | Option.none => m) 0
+
 /-- `make_args_unique(lambda ps: b)` with counter `c`: (new parameters, new body, new counter) -/
 def makeArgsUnique (ps : List String) (b : Expr) (c : Nat) : List String × Expr × Nat :=
   let ns := freshNames c ps.length
@@ -393,7 +426,8 @@ def callWhere : Nat → SStack → Nat → List Expr → List String → List Ex
     | _ => .error (.internal "IndexError")
 end
 
-/-- `simplify_chained_calls().visit(e)` -/
-def simplify (fuel : Nat) (c : Nat) (e : Expr) : Except Err (Expr × Nat) := simp fuel [[]] c e
+/-- `simplify_chained_calls().visit(e)`: the outermost `visit` first moves the counter past every name of the form `arg_N`
+    that the query already holds (`reserve_arg_names`), so that no generated name can collide with them -/
+def simplify (fuel : Nat) (c : Nat) (e : Expr) : Except Err (Expr × Nat) := simp fuel [[]] (max c (nextArg e)) e
 
 end Fadl
